@@ -88,6 +88,41 @@ pub fn c09_oracle(t: &TextTree, text: &str) -> Outcome {
         }
         Ok(Ok(x)) => x,
     };
+    // the split API on the result of a tokenizer whose mode went A -> B -> C (a per-call override and
+    // its restoration) answers like the one of a tokenizer created in C
+    {
+        o.evaluations += 1;
+        let r = catch(|| {
+            let mut tok = sudachi::analysis::stateful_tokenizer::StatefulTokenizer::new(dict.clone(), Mode::A);
+            tok.set_mode(Mode::B);
+            tok.set_mode(Mode::C);
+            tok.reset().push_str(text);
+            tok.do_tokenize().map_err(|e| classify_err(&e))?;
+            let mut l = MorphemeList::empty(dict.clone());
+            l.collect_results(&mut tok).map_err(|e| classify_err(&e))?;
+            let mut v: Vec<[(bool, Vec<Tok>); 2]> = Vec::new();
+            for i in 0..l.len() {
+                let mut pair: [(bool, Vec<Tok>); 2] = [(false, vec![]), (false, vec![])];
+                for (k, sm) in [Mode::A, Mode::B].iter().enumerate() {
+                    let mut out = MorphemeList::empty(dict.clone());
+                    let did = l.get(i).split_into(*sm, &mut out).map_err(|e| classify_err(&e))?;
+                    pair[k] = (did, toks_of(&out));
+                }
+                v.push(pair);
+            }
+            Ok::<_, AErr>(v)
+        });
+        match r {
+            Err(p) => o.fail(Failure::panic(&format!("{} {:?} split API after mode changes", w.name(), text), &p)),
+            Ok(Err(e)) => o.fail(Failure::new("error-after-mode-changes", format!("[{}] {:?}: {:?}", w.name(), text, e))),
+            Ok(Ok(v)) => {
+                let brief = |x: &Vec<[(bool, Vec<Tok>); 2]>| -> Vec<Vec<(bool, Vec<(usize, usize, u32)>)>> { x.iter().map(|p| p.iter().map(|(d, t)| (*d, t.iter().map(|t| (t.begin, t.end, t.word_id)).collect())).collect()).collect() };
+                if brief(&v) != brief(&on_demand) {
+                    o.fail(Failure::new("split-api-depends-on-mode-history", format!("[{}] {:?}: split_into on the result of a tokenizer whose mode went A -> B -> C gives {:x?}, on one created in C {:x?}", w.name(), text, brief(&v), brief(&on_demand))));
+                }
+            }
+        }
+    }
     let bc = boundaries(&tc);
     // a tokenizer that was created in mode C, restricted to the fields the path-rewrite plugins read,
     // and switched to A / B afterwards (what the Python binding does for a per-call mode) must
